@@ -49,7 +49,87 @@ def contexts():
     return _CTX
 
 
+def gen_spec_bound(rng):
+    """implementations bound to ANOTHER spec (a listing used by per-item specs): they are 'for' every context that other spec is
+    implemented for at the moment they are registered - also when that spec gained the context only shortly before"""
+    cx, cy = rng.sample(CTX_NAMES, 2)
+    return {"kind": "spec_bound", "first_ctx": cx, "late_ctx": cy, "n_late": rng.randint(2, 3),
+            "early_dependent": rng.choice(["parser", "datasource"]), "newest_outcome": rng.choice(["ok", "ok", "skip", "boom"])}
+
+
+def run_spec_bound(spec, ctx):
+    from insights.core import dr
+    from insights.core.exceptions import SkipComponent
+    from insights.core.plugins import datasource, parser
+    from insights.core.spec_factory import RegistryPoint, SpecSet
+    from vpmon import gen_graph as G
+    C = contexts()
+    uid = next(_UID)
+    modname = "vpmon_c05.sb%d" % uid
+    sys.modules[modname] = types.ModuleType(modname)
+    LOG, created = [], []
+
+    def mk(tag, deps, outcome="ok"):
+        def f(broker):
+            LOG.append(tag)
+            if outcome == "skip":
+                raise SkipComponent("s")
+            if outcome == "boom":
+                raise RuntimeError("b")
+            return tag
+        f.__name__ = f.__qualname__ = "%s_%d" % (tag, uid)
+        f.__module__ = modname
+        d = datasource(*deps)(f)
+        created.append(d)
+        return d
+    try:
+        S = type("SB%d" % uid, (SpecSet,), {"__module__": modname, "bar": RegistryPoint(), "foo": RegistryPoint(), "baz": RegistryPoint()})
+        created.extend([S.bar, S.foo, S.baz])
+        type("A%d" % uid, (S,), {"__module__": modname, "bar": mk("bar_first", [C[spec["first_ctx"]]])})
+        # something that depends on the spec is registered while it has one context only
+        if spec["early_dependent"] == "datasource":
+            type("B%d" % uid, (S,), {"__module__": modname, "baz": mk("baz_on_bar", [S.bar])})
+        else:
+            def P(v):
+                return v
+            P.__name__ = P.__qualname__ = "PB%d" % uid
+            P.__module__ = modname
+            created.append(parser(S.bar)(P))
+        # the spec gains an implementation for another context ...
+        type("Cc%d" % uid, (S,), {"__module__": modname, "bar": mk("bar_late", [C[spec["late_ctx"]]])})
+        # ... and only then implementations bound to it are registered, each overriding the previous one
+        tags = []
+        for k in range(spec["n_late"]):
+            oc = spec["newest_outcome"] if k == spec["n_late"] - 1 else "ok"
+            tags.append("foo_%d" % k)
+            type("D%d_%d" % (uid, k), (S,), {"__module__": modname, "foo": mk("foo_%d" % k, [S.bar], oc)})
+        graph = dr.get_dependency_graph(S.foo)
+        for active in (spec["first_ctx"], spec["late_ctx"]):
+            del LOG[:]
+            br = dr.Broker()
+            br[C[active]] = C[active]()
+            dr.run(dict(graph), broker=br)
+            ran = [t for t in LOG if t in tags]
+            ctx.count("spec_bound_evaluations")
+            w = {"active": active, "spec_first_implemented_for": spec["first_ctx"], "then_also_for": spec["late_ctx"], "executed": ran,
+                 "registration_order": tags}
+            if ran != [tags[-1]]:
+                ctx.violation("overridden-implementation-executed" if len(ran) > 1 or (ran and ran[0] != tags[-1]) else "latest-implementation-not-executed", w)
+            if spec["newest_outcome"] == "ok":
+                if br.get(S.foo) != tags[-1]:
+                    ctx.violation("spec-value-not-from-latest-implementation", dict(w, got=repr(br.get(S.foo))))
+            elif S.foo in br:
+                ctx.violation("absent-spec-filled-from-overridden-implementation", dict(w, got=repr(br.get(S.foo))))
+        return True
+    finally:
+        for c_ in created:
+            G._unregister(c_)
+        sys.modules.pop(modname, None)
+
+
 def gen_case(rng, tier, idx):
+    if idx % 20 == 19:
+        return gen_spec_bound(rng)
     npts = rng.randint(1, 4)
     points = [{"multi_output": rng.random() < 0.3, "filterable": rng.random() < 0.3, "raw": rng.random() < 0.2,
                "no_obfuscate": rng.choice([[], ["ip"], ["hostname", "mac"]]), "no_redact": rng.random() < 0.2,
@@ -83,6 +163,8 @@ def gen_case(rng, tier, idx):
 
 
 def run_case(spec, ctx):
+    if spec.get("kind") == "spec_bound":
+        return run_spec_bound(spec, ctx)
     from insights.core import dr
     from insights.core.exceptions import CalledProcessError, ContentException, SkipComponent
     from insights.core.plugins import datasource, parser
